@@ -68,21 +68,39 @@ theorem optnil_applyAll (rule : RefineRule) (h : List Op) : ∀ i : I,
     cases op <;> simp [apply, isOptionalOp, isNonOptionalOp] at hn ⊢ <;>
       cases i.optional <;> cases i.nilable <;> simp
 
-/-- A history is *clean* when it attaches no overwrite and no refinement (the two features
-    today's code wrongly consults on the nil path; see the witnesses below). -/
-def clean (h : List Op) : Bool := h.all fun op => !isCheckOp op
+def isRefineOp : Op → Bool
+  | .refine => true
+  | _ => false
 
-theorem overwrite_applyAll (rule : RefineRule) (h : List Op) : ∀ i : I, clean h = true →
-    (applyAll rule i h).hasOverwrite = i.hasOverwrite ∧ (applyAll rule i h).refines = i.refines := by
+/-- A history is *clean* when it attaches no refinement — the one feature today's code still wrongly consults on the
+    nil path (see the witnesses below). Overwrite calls are allowed: since 4f7c1d7 an attached overwrite no longer makes
+    the default go through the validating checks. -/
+def clean (h : List Op) : Bool := h.all fun op => !isRefineOp op
+
+theorem refines_applyAll (rule : RefineRule) (h : List Op) : ∀ i : I, clean h = true →
+    (applyAll rule i h).refines = i.refines := by
   induction h with
-  | nil => intro i _; exact ⟨rfl, rfl⟩
+  | nil => intro i _; rfl
   | cons op h ih =>
     intro i hc
     simp only [clean, List.all_cons, Bool.and_eq_true] at hc
     rw [applyAll_cons]
     have := ih (apply rule i op) (by simpa [clean] using hc.2)
-    rw [this.1, this.2]
-    cases op <;> simp [apply, isCheckOp] at hc ⊢
+    rw [this]
+    cases op <;> simp [apply, isRefineOp] at hc ⊢
+
+def isOverwriteOp : Op → Bool
+  | .overwrite => true
+  | _ => false
+
+/-- `hasOverwrite` is set exactly by the overwrite calls of the history. -/
+theorem hasOverwrite_applyAll (rule : RefineRule) (h : List Op) : ∀ i : I,
+    (applyAll rule i h).hasOverwrite = (i.hasOverwrite || h.any isOverwriteOp) := by
+  induction h with
+  | nil => intro i; simp [applyAll]
+  | cons op h ih =>
+    intro i; rw [applyAll_cons, ih]
+    cases op <;> simp [apply, isOverwriteOp]
 
 theorem any_default_iff (h : List Op) :
     h.any isDefaultOp = ((lastDv h).isSome || (lastDf h).isSome) := by
@@ -119,12 +137,12 @@ theorem c03_history_partial (rule : RefineRule) (admitsNil : Bool) (h : List Op)
   have hpv := pv_applyAll rule h {}
   have hpf := pf_applyAll rule h {}
   have hno := nonOptional_applyAll rule h {}
-  have how := overwrite_applyAll rule h {} hc
+  have how := refines_applyAll rule h {} hc
   simp only [Bool.false_or] at hno
   have hon := optnil_applyAll rule h {}
   simp only [Bool.false_or] at hon
   unfold nilOutcome specNil
-  rw [hdv, hdf, hpv, hpf, hno, how.1, how.2, any_default_iff, any_prefault_iff]
+  rw [hdv, hdf, hpv, hpf, hno, how, any_default_iff, any_prefault_iff]
   generalize ((applyAll rule {} h).optional || (applyAll rule {} h).nilable) = X at hon ⊢
   generalize h.any isNonOptionalOp = A at hon ⊢
   generalize h.any isOptionalOp = B at hon ⊢
@@ -148,16 +166,38 @@ theorem c03_outcome_reads_only_modifiers (admitsNil : Bool) (i j : I)
     (h : i.dv = j.dv ∧ i.df = j.df ∧ i.pv = j.pv ∧ i.pf = j.pf ∧ i.nonOptional = j.nonOptional ∧
          i.optional = j.optional ∧ i.nilable = j.nilable ∧ i.hasOverwrite = j.hasOverwrite ∧
          i.refines = j.refines) : nilOutcome admitsNil i = nilOutcome admitsNil j := by
-  obtain ⟨h1, h2, h3, h4, h5, h6, h7, h8, h9⟩ := h
-  unfold nilOutcome; rw [h1, h2, h3, h4, h5, h6, h7, h8, h9]
+  obtain ⟨h1, h2, h3, h4, h5, h6, h7, _, h9⟩ := h
+  unfold nilOutcome; rw [h1, h2, h3, h4, h5, h6, h7, h9]
 
 /-! ### Witnesses: the full statement is false today (known findings) -/
 
-/-- `String().Trim().Default(bad).Parse(nil)`: with an overwrite attached the default value is
-    run through all checks, so a default that does not satisfy them is an error. -/
-theorem c03_witness_default_checked : ¬ c03_history_full .ptrTy false := by
+/-- Before 4f7c1d7 — `String().Trim().Default(bad).Parse(nil)`: with an overwrite attached the default value was
+    run through all checks, so a default that does not satisfy them was an error. -/
+theorem c03_legacy_witness_default_checked :
+    ¬ ∀ h : List Op, specNil false h (legacyNilOutcome false (applyAll .ptrTy {} h)) = true := by
   intro hfull
   have := hfull [.overwrite, .dflt false]
+  revert this; decide
+
+/-- Since 4f7c1d7 that history yields the default. -/
+example : nilOutcome false (applyAll .ptrTy {} [.overwrite, .dflt false]) = .dflt false := by decide
+
+/-- **"…without running checks"** — the full statement about check callbacks: with a default set, no check callback of
+    the schema runs on a nil input. (False today: `c03_witness_overwrite_on_default`.) -/
+def c03_default_runs_no_check_full (rule : RefineRule) : Prop :=
+  ∀ h : List Op, h.any isDefaultOp = true → overwriteRunsOnDefault (applyAll rule {} h) = false
+
+/-- It holds for every history without an overwrite call (refinements and every validating check are skipped). -/
+theorem c03_default_runs_no_check_partial (rule : RefineRule) (h : List Op)
+    (ho : h.any isOverwriteOp = false) : overwriteRunsOnDefault (applyAll rule {} h) = false := by
+  unfold overwriteRunsOnDefault
+  rw [hasOverwrite_applyAll, ho]; simp
+
+/-- `Complex().Default(1+1i).Overwrite(square).Parse(nil)` is `2i`: the overwrite checks still rewrite the default
+    (pinned by TestComplex_Overwrite / TestStringBool_Overwrite "default value interaction"). -/
+theorem c03_witness_overwrite_on_default : ¬ c03_default_runs_no_check_full .nilableFlag := by
+  intro hfull
+  have := hfull [.dflt true, .overwrite] (by decide)
   revert this; decide
 
 /-- `String().Refine(f).Optional().Parse(nil)`: refinements run on the nil value and a wrapper
@@ -375,18 +415,16 @@ theorem c03_wrapped_partial (rule : RefineRule) (admitsNil : Bool) (h : List Op)
     specNilW admitsNil h ws ((wrap (applyAll rule {} h) ws).parse admitsNil .nil) = true := by
   have hs := c03_history_partial rule admitsNil h hc
   have hd := hasDefault_applyAll rule h
-  have how := overwrite_applyAll rule h {} hc
-  generalize hI : applyAll rule {} h = i at hs hd how
+  generalize hI : applyAll rule {} h = i at hs hd
   apply specNilW_of admitsNil h ws (nilOutcome admitsNil i) _ hs
   cases hany : h.any isDefaultOp with
   | true =>
     rw [hany] at hd
     rw [c03_wrapped_default admitsNil i ws hd]
-    -- with a default set and no overwrite attached the base outcome is the default
+    -- with a default set the base outcome is the default
     have hout : ∃ k, nilOutcome admitsNil i = .dflt k := by
       unfold hasDefault at hd
       unfold nilOutcome
-      rw [how.1]
       rcases hdv : i.dv with _ | v
       · rcases hdf : i.df with _ | v
         · rw [hdv, hdf] at hd; cases hd
@@ -412,11 +450,11 @@ theorem c03_wrapped_partial (rule : RefineRule) (admitsNil : Bool) (h : List Op)
     | dflt k => exact absurd ho (hnd k)
     | _ => simp [specWrapped, extend]
 
-/-- The wrapped full statement inherits the bare schema's deviation (an overwrite makes the default
-    go through the checks), here under two chained transforms. -/
-theorem c03_wrapped_witness_default_checked : ¬ c03_wrapped_full .ptrTy false := by
+/-- The wrapped full statement inherits the bare schema's deviation (a refinement attached before Optional()
+    rejects the nil), here under two chained transforms. -/
+theorem c03_wrapped_witness_refine_on_nil : ¬ c03_wrapped_full .ptrTy false := by
   intro hfull
-  have := hfull [.overwrite, .dflt false] [.tf, .tf]
+  have := hfull [.refine, .optional] [.tf, .tf]
   revert this; decide
 
 /-- **A non-nil input is not affected by the modifiers, under every wrapper chain**: result and
@@ -471,9 +509,9 @@ theorem step_eq_parseBase (c : Ctx) (s : Sch) (inp : In) :
   · simp only [ctxStep, processModifiersCtx, In.isNil, parseBase, baseNil, nilOutcome]
     rcases i.dv with _ | v1 <;> rcases i.df with _ | v2 <;> rcases i.pv with _ | v3 <;> rcases i.pf with _ | v4
     all_goals first
+      | rfl
       | (cases i.nonOptional <;> cases (i.optional || i.nilable) <;> cases adm <;> cases i.refines.all id <;> rfl)
       | (cases v3 <;> rfl) | (cases v4 <;> rfl)
-      | (cases i.hasOverwrite <;> cases v1 <;> rfl) | (cases i.hasOverwrite <;> cases v2 <;> rfl)
   · rfl
   · rfl
 
@@ -562,7 +600,7 @@ theorem c03_ctx_seq_partial (c0 : Ctx) (ps : List PStep) (hc : ps.all (fun p => 
 
 theorem c03_ctx_seq_witness : ¬ c03_ctx_seq_full := by
   intro hfull
-  have := hfull {} [⟨.ptrTy, false, [.prefault false], .nil⟩, ⟨.ptrTy, false, [.overwrite, .dflt false], .nil⟩]
+  have := hfull {} [⟨.ptrTy, false, [.prefault false], .nil⟩, ⟨.ptrTy, false, [.refine, .optional], .nil⟩]
   revert this; decide
 
 /-- Non-vacuity: a context with the flag set by the caller, a failing prefault first, then an Optional schema with
@@ -579,28 +617,30 @@ example :
 
 /-! ## The last clause: non-nil inputs and the type's own configuration -/
 
-theorem applyAllC_cons {Cfg : Type} (k : Kind) (rule : RefineRule) (zero : Cfg) (s : SchC Cfg) (op : Op) (h : List Op) :
-    applyAllC k rule zero s (op :: h) = applyAllC k rule zero (applyC k rule zero s op) h := rfl
+theorem applyAllC_cons {Cfg : Type} (drops : Kind → Op → Bool) (k : Kind) (rule : RefineRule) (zero : Cfg) (s : SchC Cfg)
+    (op : Op) (h : List Op) :
+    applyAllC drops k rule zero s (op :: h) = applyAllC drops k rule zero (applyC drops k rule zero s op) h := rfl
 
 /-- The embedded internals of the derived schema are those of the bare history model: every theorem about
     `applyAll` (the nil outcome) speaks about the schema with its configuration too. -/
-theorem applyAllC_i {Cfg : Type} (k : Kind) (rule : RefineRule) (zero : Cfg) (h : List Op) : ∀ s : SchC Cfg,
-    (applyAllC k rule zero s h).i = applyAll rule s.i h ∧ (applyAllC k rule zero s h).admitsNil = s.admitsNil := by
+theorem applyAllC_i {Cfg : Type} (drops : Kind → Op → Bool) (k : Kind) (rule : RefineRule) (zero : Cfg) (h : List Op) :
+    ∀ s : SchC Cfg, (applyAllC drops k rule zero s h).i = applyAll rule s.i h ∧
+      (applyAllC drops k rule zero s h).admitsNil = s.admitsNil := by
   induction h with
   | nil => intro s; exact ⟨rfl, rfl⟩
-  | cons op h ih => intro s; rw [applyAllC_cons, applyAll_cons]; exact ih (applyC k rule zero s op)
+  | cons op h ih => intro s; rw [applyAllC_cons, applyAll_cons]; exact ih (applyC drops k rule zero s op)
 
-/-- The configuration after a history: untouched unless one of its calls is a dropping method — then the zero value,
-    whatever came before or after (no modifier restores it). -/
-theorem applyAllC_cfg {Cfg : Type} (k : Kind) (rule : RefineRule) (zero : Cfg) (h : List Op) : ∀ s : SchC Cfg,
-    (applyAllC k rule zero s h).cfg = if h.any (dropsCfg k) then zero else s.cfg := by
+/-- The configuration after a history, for ANY table `drops` of configuration-dropping methods: untouched unless one
+    of the calls is a dropping method — then the zero value, whatever came before or after (no modifier restores it). -/
+theorem applyAllC_cfg {Cfg : Type} (drops : Kind → Op → Bool) (k : Kind) (rule : RefineRule) (zero : Cfg) (h : List Op) :
+    ∀ s : SchC Cfg, (applyAllC drops k rule zero s h).cfg = if h.any (drops k) then zero else s.cfg := by
   induction h with
   | nil => intro s; rfl
   | cons op h ih =>
     intro s
     rw [applyAllC_cons, ih]
     simp only [List.any_cons, applyC]
-    by_cases h1 : dropsCfg k op = true <;> by_cases h2 : h.any (dropsCfg k) = true <;> simp [h1, h2]
+    by_cases h1 : drops k op = true <;> by_cases h2 : h.any (drops k) = true <;> simp [h1, h2]
 
 /-- A non-nil input never reaches a modifier branch: `processModifiersCore` answers "not handled" at once
     (`if !isNilInput(input)`, the first statement — `c03_pmc_structure_as_transcribed`), whatever the modifier state. -/
@@ -611,39 +651,39 @@ theorem ctxStepX_nonNil {Cfg X Y : Type} (validate : Cfg → X → Option Y) (c 
     ctxStepX validate c s (some x) =
       (c, match validate s.cfg x with | some y => .accepted y | none => .rejected) := rfl
 
-/-- The full last clause: whatever the type (its kind of modifier methods `k`), its value parser `validate`, its
+/-- The frame statement for a table `drops`: whatever the type (its kind `k`), its value parser `validate`, its
     configuration, the modifier state it starts from and the context, a non-nil input is validated after ANY history
-    of modifier (and check-attaching) calls exactly as before it. (False today for Record and partial Struct:
-    `c03_nonnil_frame_witness_record`, `c03_nonnil_frame_witness_struct`.) -/
-def c03_nonnil_frame_full : Prop :=
+    of modifier (and check-attaching) calls exactly as before it. -/
+def nonnilFrame (drops : Kind → Op → Bool) : Prop :=
   ∀ (Cfg X Y : Type) (validate : Cfg → X → Option Y) (k : Kind) (rule : RefineRule) (zero : Cfg) (h : List Op)
     (s : SchC Cfg) (x : X) (c : Ctx),
-    ctxStepX validate c (applyAllC k rule zero s h) (some x) = ctxStepX validate c s (some x)
+    ctxStepX validate c (applyAllC drops k rule zero s h) (some x) = ctxStepX validate c s (some x)
 
-/-- **C03, last clause.** For every value parser, configuration, start state, context and every history none of whose
-    calls is a configuration-dropping method (`dropsCfg`: today `NonOptional` on Record and on Struct; every history
-    on every other type), a non-nil input yields exactly what the schema without the modifiers yields — verdict and
-    value — and leaves the context as it was. -/
-theorem c03_nonnil_frame {Cfg X Y : Type} (validate : Cfg → X → Option Y) (k : Kind) (rule : RefineRule) (zero : Cfg)
-    (h : List Op) (hk : h.any (dropsCfg k) = false) (s : SchC Cfg) (x : X) (c : Ctx) :
-    ctxStepX validate c (applyAllC k rule zero s h) (some x) = ctxStepX validate c s (some x) := by
+/-- For any table: a history none of whose calls is a dropping method leaves non-nil inputs alone. -/
+theorem c03_nonnil_frame_of {Cfg X Y : Type} (drops : Kind → Op → Bool) (validate : Cfg → X → Option Y) (k : Kind)
+    (rule : RefineRule) (zero : Cfg) (h : List Op) (hk : h.any (drops k) = false) (s : SchC Cfg) (x : X) (c : Ctx) :
+    ctxStepX validate c (applyAllC drops k rule zero s h) (some x) = ctxStepX validate c s (some x) := by
   rw [ctxStepX_nonNil, ctxStepX_nonNil, applyAllC_cfg, hk]; rfl
 
-/-- On every type whose modifier methods carry the configuration the clause holds for every history. -/
-theorem c03_nonnil_frame_plain {Cfg X Y : Type} (validate : Cfg → X → Option Y) (rule : RefineRule) (zero : Cfg)
-    (h : List Op) (s : SchC Cfg) (x : X) (c : Ctx) :
-    ctxStepX validate c (applyAllC .plain rule zero s h) (some x) = ctxStepX validate c s (some x) := by
-  apply c03_nonnil_frame
+/-- **C03, last clause — full strength.** With the code's table (`dropsCfg`: no modifier method of any type rebuilds
+    the internals without the configuration — `c03_cfg_drops_as_modelled`, decided over the regenerated table): for every
+    type, value parser, configuration, start state, context and EVERY history of modifier and check-attaching calls, a
+    non-nil input yields exactly what the schema without the modifiers yields — verdict and value (up to the static
+    constraint type T / *T of the result, which the Go type of the derived schema fixes) — and leaves the context as
+    it was. -/
+theorem c03_nonnil_frame : nonnilFrame dropsCfg := by
+  intro Cfg X Y validate k rule zero h s x c
+  apply c03_nonnil_frame_of
   induction h with
   | nil => rfl
-  | cons op h ih => simp only [List.any_cons, ih, Bool.or_false]; cases op <;> rfl
+  | cons op h ih => simp only [List.any_cons, ih, Bool.or_false]; rfl
 
 /-- The nil side of the same schema is the history model's: `c03_history_partial` & co. apply unchanged. -/
-theorem c03_frame_nil_side {Cfg X Y : Type} (validate : Cfg → X → Option Y) (k : Kind) (rule : RefineRule) (zero : Cfg)
-    (h : List Op) (s : SchC Cfg) (c : Ctx) :
-    (ctxStepX validate c (applyAllC k rule zero s h) none).2 =
+theorem c03_frame_nil_side {Cfg X Y : Type} (drops : Kind → Op → Bool) (validate : Cfg → X → Option Y) (k : Kind)
+    (rule : RefineRule) (zero : Cfg) (h : List Op) (s : SchC Cfg) (c : Ctx) :
+    (ctxStepX validate c (applyAllC drops k rule zero s h) none).2 =
       .nilPath (parseBase s.admitsNil (applyAll rule s.i h) .nil) := by
-  obtain ⟨hi, ha⟩ := applyAllC_i k rule zero h s
+  obtain ⟨hi, ha⟩ := applyAllC_i drops k rule zero h s
   simp only [ctxStepX, step_eq_parseBase, hi, ha]
 
 /-- A record as the witnesses see it: configuration = "is the key schema there", input = "does the key schema admit
@@ -651,33 +691,32 @@ theorem c03_frame_nil_side {Cfg X Y : Type} (validate : Cfg → X → Option Y) 
 def recordValidate (keyed : Bool) (keysAdmitted : Bool) : Option Unit :=
   if keyed && !keysAdmitted then none else some ()
 
-/-- `Record(Enum("a","b"), Int()).NonOptional().Parse(map[string]int{"a": 50, "zzz": 50})` succeeds where
-    `Record(Enum("a","b"), Int()).Parse(…)` reports the unrecognized key: `NonOptional` rebuilt the internals
-    without `KeyType` (and `Loose`). -/
-theorem c03_nonnil_frame_witness_record : ¬ c03_nonnil_frame_full := by
+/-- The statement discriminates — before 66ed2d6: `Record(Enum("a","b"), Int()).NonOptional().Parse(map[string]int{"a": 50,
+    "zzz": 50})` succeeded where `Record(Enum("a","b"), Int()).Parse(…)` reports the unrecognized key: `NonOptional`
+    rebuilt the internals without `KeyType` (and `Loose`). -/
+theorem c03_legacy_frame_witness_record : ¬ nonnilFrame legacyDropsCfg := by
   intro hfull
   have := hfull Bool Bool Unit recordValidate .record .nilableFlag false [.nonOptional] ⟨true, false, {}⟩ false {}
   revert this; decide
 
 /-- A partial struct likewise: configuration = `IsPartial`, input = "are all fields non-zero and valid"; the parser
-    skips zero fields only while partial. `FromStruct[T]().Partial().NonOptional().Parse(T{})` is rejected where
-    `FromStruct[T]().Partial().Parse(T{})` succeeds. -/
+    skips zero fields only while partial. Before ef151cb `FromStruct[T]().Partial().NonOptional().Parse(T{})` was
+    rejected where `FromStruct[T]().Partial().Parse(T{})` succeeds. -/
 def structValidate (isPartial : Bool) (allFieldsValid : Bool) : Option Unit :=
   if isPartial || allFieldsValid then some () else none
 
-theorem c03_nonnil_frame_witness_struct : ¬ c03_nonnil_frame_full := by
+theorem c03_legacy_frame_witness_struct : ¬ nonnilFrame legacyDropsCfg := by
   intro hfull
   have := hfull Bool Bool Unit structValidate .structp .nilableFlag false [.optional, .nonOptional] ⟨true, false, {}⟩ false {}
   revert this; decide
 
-/-- Non-vacuity: a clean-or-not history of every other modifier on a record keeps the key schema, and the input that
-    depends on it is still rejected; the nil side of the same schema is the default. -/
+/-- Non-vacuity: a history with every kind of call on a record keeps the key schema, and the input that depends on it
+    is still rejected; the nil side of the same schema is the default. -/
 example :
-    (ctxStepX recordValidate {} (applyAllC .record .nilableFlag false ⟨true, false, {}⟩
-        [.optional, .dflt true, .prefaultFn false, .nullish, .refine]) (some false)).2 = .rejected ∧
-    (ctxStepX recordValidate {} (applyAllC .record .nilableFlag false ⟨true, false, {}⟩
-        [.optional, .dflt true, .prefaultFn false, .nullish]) none).2 = .nilPath (.ok (.src (.dflt false))) ∧
-    [Op.optional, .dflt true, .prefaultFn false, .nullish, .refine].any (dropsCfg .record) = false := by decide
+    (ctxStepX recordValidate {} (applyAllC dropsCfg .record .nilableFlag false ⟨true, false, {}⟩
+        [.optional, .dflt true, .nonOptional, .prefaultFn false, .nullish, .refine]) (some false)).2 = .rejected ∧
+    (ctxStepX recordValidate {} (applyAllC dropsCfg .record .nilableFlag false ⟨true, false, {}⟩
+        [.optional, .dflt true, .nonOptional, .prefaultFn false, .nullish]) none).2 = .nilPath (.ok (.src (.dflt false))) := by decide
 
 /-! ## The regenerated tables (`Gozod/Gen/C03Tables.lean`, go/ast over /repo's working tree on every run)
 
